@@ -136,7 +136,9 @@ func c11Check(c C11Case) *pbt.Violation {
 					continue
 				}
 				i = op.I % n
-				v = []int{-1, int(mask) + 1, -int(mask) - 1, int(mask) + 2}[int(uint64(op.V)%4)]
+				// out of range right above the mask, negative, and out of range only ABOVE bit 31 (a value that looks
+				// fine when only its low 32 bits are examined), MinInt64
+				v = []int{-1, int(mask) + 1, -int(mask) - 1, int(mask) + 2, 1<<32 | 1, 1<<32 | int(mask), 1 << 40, -1 << 63, 1<<32 + int(mask>>1)}[int(uint64(op.V)%9)]
 			}
 			before := append([]uint64{}, bs.Raw()...)
 			which := int(uint64(op.V) % 3)
